@@ -61,6 +61,8 @@ class Spec:
     object_params: tuple[str, ...] = ()  # parameters that are objects, only looked at through `opaque` expressions
     refusal_returns: bool = False  # `return (code, subcode, text)` is a refusal: PyRes.raise code subcode (the text is not modelled)
     return_map: dict[str, tuple[str, str]] = field(default_factory=dict)  # `return <source>` ≡ raise (x_<a>, x_<b>): a refusal whose codes are inputs
+    slice_fields: bool = False  # translate the SLICE of the function that computes the declared fields: a statement which neither assigns a declared field nor a local a kept statement reads is left out (ints and bools are immutable: only an assignment changes them)
+    identity_calls: tuple[str, ...] = ()  # T(e) ≡ e: constructors of int subclasses (HoldTime, ASN)
     tuple_result: tuple[int, int, int] | None = None  # `return e0, …, en` with e[err] = None ≡ ret (e[i], e[j]); with e[err] = NotifyError(c, s, …) ≡ raise c s (the other elements are buffers: not modelled)
 
 
@@ -179,6 +181,13 @@ class _Tr:
                     return self.expr(inner, {})
                 finally:
                     self.inlining.pop()
+        if isinstance(e, ast.Call) and isinstance(e.func, ast.Name) and e.func.id in ('min', 'max') and len(e.args) == 2 and not e.keywords and e.func.id not in env:
+            (a, ta), (b, tb) = self.expr(e.args[0], env), self.expr(e.args[1], env)
+            if ta != 'int' or tb != 'int':
+                raise Unsupported(f'{e.func.id} of non-int: {ast.unparse(e)}')
+            return f'({e.func.id} {a} {b})', 'int'
+        if isinstance(e, ast.Call) and _dotted(e.func) in sp.identity_calls and len(e.args) == 1 and not e.keywords:
+            return self.expr(e.args[0], env)
         if isinstance(e, ast.Call):
             # int(time.time())
             if isinstance(e.func, ast.Name) and e.func.id == 'int' and len(e.args) == 1 and not e.keywords:
@@ -449,6 +458,68 @@ class _Tr:
         )
 
 
+def _stores(s: ast.AST) -> set[str]:
+    """Names a statement may assign: locals, `self.<f>` (also through `self.<f>.method(...)`, `self.<f>[k] = …`)."""
+    out: set[str] = set()
+    for n in ast.walk(s):
+        if isinstance(n, ast.Name) and isinstance(n.ctx, (ast.Store, ast.Del)):
+            out.add(n.id)
+        elif isinstance(n, ast.Attribute) and isinstance(n.value, ast.Name) and n.value.id == 'self':
+            if isinstance(n.ctx, (ast.Store, ast.Del)):
+                out.add('self.' + n.attr)
+        if isinstance(n, (ast.Subscript, ast.Attribute)) and isinstance(n.ctx, (ast.Store, ast.Del)) and not (isinstance(n, ast.Attribute) and isinstance(n.value, ast.Name) and n.value.id == 'self'):
+            b = n.value
+            while isinstance(b, (ast.Subscript, ast.Attribute)) and not (isinstance(b, ast.Attribute) and isinstance(b.value, ast.Name) and b.value.id == 'self'):
+                b = b.value
+            if isinstance(b, ast.Attribute):
+                out.add('self.' + b.attr)
+            elif isinstance(b, ast.Name):
+                out.add(b.id)
+        if isinstance(n, ast.Call) and isinstance(n.func, ast.Attribute):
+            b = n.func.value  # x.method(...): x may be changed by it
+            if isinstance(b, ast.Attribute) and isinstance(b.value, ast.Name) and b.value.id == 'self':
+                out.add('self.' + b.attr)
+            elif isinstance(b, ast.Name):
+                out.add(b.id)
+    return out
+
+
+def _loads(s: ast.AST, opaque: dict) -> set[str]:
+    """Names a statement reads, outside the expressions that are opaque inputs."""
+    out: set[str] = set()
+
+    def walk(n: ast.AST) -> None:
+        if isinstance(n, ast.expr) and ast.unparse(n) in opaque:
+            return
+        if isinstance(n, ast.Name) and isinstance(n.ctx, ast.Load):
+            out.add(n.id)
+        elif isinstance(n, ast.Attribute) and isinstance(n.value, ast.Name) and n.value.id == 'self':
+            if isinstance(n.ctx, ast.Load):
+                out.add('self.' + n.attr)
+            return
+        for c in ast.iter_child_nodes(n):
+            walk(c)
+
+    walk(s)
+    return out
+
+
+def slice_body(body: list[ast.stmt], spec: Spec) -> list[ast.stmt]:
+    """Backward slice on the declared fields: keep a statement iff it may assign a declared field or a name a
+    kept statement after it reads (a `return`/`raise` is always kept).  Compound statements are kept or dropped
+    whole.  Sound for the int/bool fields of the spec: such a value changes by assignment only."""
+    needed = {'self.' + f for f in spec.fields}
+    kept: list[ast.stmt] = []
+    for s in reversed(body):
+        if isinstance(s, ast.Expr) and isinstance(s.value, ast.Constant):
+            continue
+        always = any(isinstance(n, (ast.Return, ast.Raise)) for n in ast.walk(s))
+        if always or (_stores(s) & needed):
+            kept.append(s)
+            needed |= _loads(s, spec.opaque)
+    return kept[::-1]
+
+
 def lean_state_structure(cls: str, fields: dict[str, str]) -> str:
     out = [f'structure {cls}St where']
     for f, t in fields.items():
@@ -486,6 +557,11 @@ def translate(fn: Any, spec: Spec, lean_name: str | None = None, nested: str | N
         if a not in spec.params and a not in objs and a not in spec.object_params:
             raise Unsupported(f'parameter {a} of {fdef.name} is not declared in the spec')
     tr = _Tr(spec, fdef.name, getattr(fn, '__globals__', None))
+    left_out: list[str] = []
+    if spec.slice_fields:
+        full = list(fdef.body)
+        fdef.body = slice_body(full, spec)
+        left_out = [ast.unparse(x).splitlines()[0][:100] for x in full if x not in fdef.body and not (isinstance(x, ast.Expr) and isinstance(x.value, ast.Constant))]
     opening = ''.join(f'  let s_{f} : {LEAN_T[t]} := st.{f}\n' for f, t in spec.fields.items())
     body = tr.block(list(fdef.body), [], {}, 1)
     params = [(f'p_{p}', LEAN_T[t]) for p, t in spec.params.items() if p in declared]
@@ -500,6 +576,8 @@ def translate(fn: Any, spec: Spec, lean_name: str | None = None, nested: str | N
         params.append(('now', 'Int'))
     sig = ' '.join(f'({n} : {t})' for n, t in params)
     doc = '/-- translated from:\n' + '\n'.join('    ' + l for l in src.rstrip().splitlines()) + '\n-/'
+    if left_out:
+        doc = doc[:-3] + '\n    SLICE on the fields ' + ', '.join(spec.fields) + '; statements left out (they assign none of them):\n' + '\n'.join('      ' + l.replace('-/', '- /') for l in left_out) + '\n-/'
     doc = doc.replace('-/\n-/', '-/')
     if spec.pure:
         if spec.fields:
